@@ -639,6 +639,101 @@ func c16FinaliseRtsp(c *fw.Ctx, i int) {
 	}
 }
 
+// c16Republish: delayed HLS directory cleanup (cleanup_mode 1/2) against a second publisher of
+// the same name that arrives before the cleanup timer of the first one fires and is still live
+// when it does.
+func c16Republish(c *fw.Ctx, i int) {
+	r := c.Rng
+	mode := 1 + r.Intn(2)
+	fragMs, num, del := 500, 2, 1
+	root := filepath.Join(c.Scratch, fmt.Sprintf("c16-%d", i))
+	os.MkdirAll(root, 0755)
+	defer os.RemoveAll(root)
+	s, err := srv.Start(srv.Conf{Hls: true, HlsFragMs: fragMs, HlsFragNum: num, HlsDelThr: del, HlsCleanup: mode, Api: true}, root)
+	if err != nil {
+		c.Inconclusive("server start: %v", err)
+		return
+	}
+	defer s.Stop()
+	name := fmt.Sprintf("rp%d", i)
+	delay := time.Duration(fragMs*(num+del)) * time.Millisecond
+	desc := fmt.Sprintf("re-publish before the delayed HLS cleanup: cleanup_mode=%d delay=%v", mode, delay)
+	c.Describe("%s", desc)
+	c.Cell("republish-vs-cleanup/mode=%d", mode)
+	dir := filepath.Join(s.HlsDir, name)
+	playlistOK := func() (bool, string) {
+		pl, err := os.ReadFile(filepath.Join(dir, "playlist.m3u8"))
+		if err != nil {
+			return false, "no live playlist on disk"
+		}
+		m3, perr := ref.ParseM3u8(pl)
+		if perr != nil {
+			return false, "live playlist does not parse: " + perr.Error()
+		}
+		for _, e := range m3.Entries {
+			if _, err := os.Stat(filepath.Join(dir, filepath.Base(e.URI))); err != nil {
+				return false, "listed segment " + e.URI + " is not on disk"
+			}
+		}
+		return true, string(pl)
+	}
+	for inc := 1; inc <= 2; inc++ {
+		sp := gen.EsSpec{VCodec: "avc", ACodec: "aac", AacIdx: 4, AacChans: 2, AacObj: 2, NVideo: []int{50, 110}[inc-1], GopLen: 5, AudioPer: 1, MaxNals: 1, VideoMs: 40}
+		es := gen.BuildEs(c.SubRng(fmt.Sprintf("es%d", inc)), inc, sp)
+		from := s.Notify.Len()
+		pub, err := ref.StartRtmpPublisher(s.RtmpAddr(), "live", name, 3*time.Second)
+		if err != nil {
+			c.Inconclusive("publisher: %v", err)
+			return
+		}
+		paddr := pub.RC.Conn.LocalAddr().String()
+		if _, ok := s.Notify.WaitSessionFrom(3*time.Second, from, "pub_start", paddr); !ok {
+			pub.Close()
+			c.Inconclusive("publisher not accepted")
+			return
+		}
+		pub.RC.SetChunkSize(60000)
+		t0 := time.Now()
+		checked := false
+		for _, m := range es.RtmpMessages(true) {
+			pub.RC.Send(ref.RtmpMsg{Csid: csidFor(m.Type), TypeID: m.Type, StreamID: pub.Msid, Ts: m.Ts, Payload: m.Payload}, 0)
+			if inc == 2 {
+				// real-time pacing: the second incarnation is live across the first one's cleanup timer
+				if d := time.Duration(m.Ts)*time.Millisecond - time.Since(t0); d > 0 {
+					time.Sleep(d)
+				}
+				if !checked && time.Since(t0) > delay+700*time.Millisecond {
+					checked = true
+					c.Eval(1)
+					if ok, why := playlistOK(); !ok {
+						c.Violate("hls/live-stream-cleaned", fmt.Sprintf("while the second publisher of the name is live (%v after it started): %s | %s", time.Since(t0), why, desc), nil)
+					}
+				}
+			}
+		}
+		time.Sleep(100 * time.Millisecond)
+		pub.Close()
+		s.Notify.WaitSessionFrom(3*time.Second, from, "pub_stop", paddr)
+		time.Sleep(100 * time.Millisecond)
+		c.Eval(1)
+		ok, what := playlistOK()
+		if !ok {
+			c.Violate("hls/no-playlist/republish", fmt.Sprintf("after incarnation %d ended: %s | %s", inc, what, desc), nil)
+			return
+		}
+		if strings.Count(what, "#EXT-X-ENDLIST") != 1 {
+			c.Violate("hls/endlist-count", fmt.Sprintf("after incarnation %d ended the live playlist has %d ENDLIST markers | %s", inc, strings.Count(what, "#EXT-X-ENDLIST"), desc), nil)
+		}
+	}
+	// after the last end the directory is cleaned up
+	if !srv.WaitFor(delay+3*time.Second, func() bool {
+		es, err := os.ReadDir(dir)
+		return err != nil || len(es) == 0
+	}) {
+		c.Violate("hls/cleanup-missing", fmt.Sprintf("cleanup_mode=%d: HLS files still present %v after the last publisher left | %s", mode, delay+3*time.Second, desc), nil)
+	}
+}
+
 func c16RemoveMatching(dir, prefix string) {
 	es, _ := os.ReadDir(dir)
 	for _, e := range es {
@@ -1068,7 +1163,7 @@ func init() {
 		},
 		Setup:       c16Setup,
 		CaseTimeout: func(string) time.Duration { return 4 * time.Minute },
-		Rule: "whole-server runs with HLS (disk), FLV and TS recorders, relay push to a stub target, the stream hook and RTMP/FLV/TS consumers. Finalise scenarios (3 of 5 cases with an RTMP publisher; 1 of 5 with an RTSP publisher over interleaved TCP or UDP ended by close / kick / silence / TEARDOWN, outputs checked structurally): 3–5 incarnations of one stream name with changing codec pairs (AVC/HEVC/enhanced HEVC/none × AAC/none); each incarnation is cut at a seeded instant (nothing sent, headers only, right after a key frame, after an audio frame with batched audio pending, mid-stream, complete) by close / API kick / going silent (check interval 2 s) / server Dispose. Observed right after each end: stream-hook OnStop calls = 1 and OnMsg calls = messages published; push target connection closed; exactly one FLV and one TS recording, FLV parses to EOF and equals the published audio/video messages, TS passes the C06 frame oracle to the last video and audio frame (flush); live and record playlists parse, one ENDLIST, every segment file listed and present, segments pass the frame oracle to the last frame; idle publisher gets pub_stop ≤ 2·interval+3 s+2 s and its socket closes; joiners of an incarnation see only its tags, long-lived consumers never see an older incarnation after a newer one; stat codec fields equal the current input's; the group leaves /api/stat/all_group ≤ 8 s after the last session. Resource scenarios (1 of 5): 3 warm-up cycles, baseline goroutines and /proc/self/fd with no session left, 6 (thorough 12) cycles with RTMP/FLV/TS/RTSP-TCP/RTSP-UDP consumers, abandoned RTSP DESCRIBE/SETUP, aborted RTMP handshakes, HLS and API requests, ends by close/kick/consumers-first; growth ≥ 1 per 2 cycles is a leak. cell = end way × end instant × codec pair.",
+		Rule: "whole-server runs with HLS (disk), FLV and TS recorders, relay push to a stub target, the stream hook and RTMP/FLV/TS consumers. Finalise scenarios (3 of 5 cases with an RTMP publisher; 1 of 5 with an RTSP publisher over interleaved TCP or UDP ended by close / kick / silence / TEARDOWN, outputs checked structurally): 3–5 incarnations of one stream name with changing codec pairs (AVC/HEVC/enhanced HEVC/none × AAC/none); each incarnation is cut at a seeded instant (nothing sent, headers only, right after a key frame, after an audio frame with batched audio pending, mid-stream, complete) by close / API kick / going silent (check interval 2 s) / server Dispose. Observed right after each end: stream-hook OnStop calls = 1 and OnMsg calls = messages published; push target connection closed; exactly one FLV and one TS recording, FLV parses to EOF and equals the published audio/video messages, TS passes the C06 frame oracle to the last video and audio frame (flush); live and record playlists parse, one ENDLIST, every segment file listed and present, segments pass the frame oracle to the last frame; idle publisher gets pub_stop ≤ 2·interval+3 s+2 s and its socket closes; joiners of an incarnation see only its tags, long-lived consumers never see an older incarnation after a newer one; stat codec fields equal the current input's; the group leaves /api/stat/all_group ≤ 8 s after the last session. Re-publish scenarios (1 of 10): cleanup_mode 1/2 with a 1.5 s delayed directory cleanup, a second publisher of the name arriving at once and staying live across the first one's cleanup timer — live playlist and listed segments must be on disk while it is live and finalised when it ends, directory removed after the last end. Resource scenarios (1 of 5): 3 warm-up cycles, baseline goroutines and /proc/self/fd with no session left, 6 (thorough 12) cycles with RTMP/FLV/TS/RTSP-TCP/RTSP-UDP consumers, abandoned RTSP DESCRIBE/SETUP, aborted RTMP handshakes, HLS and API requests, ends by close/kick/consumers-first; growth ≥ 1 per 2 cycles is a leak. cell = end way × end instant × codec pair.",
 		Assumptions: []string{"recording and HLS files of one incarnation are inspected and then removed by the harness before the next incarnation starts (lal names recordings by second, so back-to-back incarnations would otherwise share a file name)", "goroutine and descriptor counts include the harness's own; every harness connection is closed before counting and only growth proportional to the number of cycles is judged"},
 		MinCells: 10,
 		Run: func(c *fw.Ctx, i int) {
@@ -1076,6 +1171,8 @@ func init() {
 				c16Resources(c, i)
 			} else if i%5 == 3 {
 				c16FinaliseRtsp(c, i)
+			} else if i%10 == 7 {
+				c16Republish(c, i)
 			} else {
 				c16Finalise(c, i)
 			}
